@@ -30,12 +30,19 @@ class IndentRec(e8.SymRec):
     def _self_indent(self, v):
         return v[0] == "proj" and v[2] == "field" and v[3] == "indent" and v[1][0] == "proj" and v[1][2] == "deref" and v[1][1] == ("in", 1)
 
+    def _self_col(self, v):
+        return v[0] == "proj" and v[2] == "field" and v[3] == "col" and v[1][0] == "proj" and v[1][2] == "field" and v[1][3] == "mark"
+
     def leaf(self, v):
+        if self._self_col(v):
+            return ("self", "col")
         return ("self", "indent") if self._self_indent(v) else None
 
     def interp(self, v, env):
         if self._self_indent(v) and ("self", "indent") in env:
             return env[("self", "indent")]
+        if self._self_col(v) and ("self", "col") in env:
+            return env[("self", "col")]
         if v[0] == "cast" and v[1] in ("isize", "i64", "i32") :
             return None
         return None
@@ -133,3 +140,69 @@ def check(rep, F, rule="explicit-indent-table"):
                       detail={"parent_indent": parent, "indicator": m})
     rep.extra["explicit_indent"] = {"paths": len(ps), "cases": n, "digit_local": f.locals[digit[1]].get("name"), "indent_local": f.locals[indent_l].get("name"), "start": start}
     return n
+
+
+def implied_final_break(rep, F, rule="implied-final-break"):
+    """'... and this holds with or without a final newline at end of input': a content line that runs up to the end of input has an
+    implied final break.  After such a line the column is at least content indentation + 1 (the line started at the indentation -
+    the loop guard - and, the end of input having been excluded at its start, holds at least one character).  The test that decides
+    whether '\\n' is appended at the end of input compares the column with an expression of the indentation; folded over
+    indentation 0..5 and column indentation+1..indentation+3 it must choose the appending edge every time."""
+    f = F.fn(FN)
+    rec = IndentRec(f)
+    rec.domains = {}
+    inloop = set().union(*[body for h, body in f.natural_loops()]) if f.natural_loops() else set()
+    D = f.dominators()
+    pushes = []
+    for bb, t, ck, fr in f.calls():
+        if ck == "std::string::String::push" and bb not in inloop and len(t["args"]) > 1:
+            c = op_const(t["args"][1])
+            if c is not None and const_value(c) == ("char", 10):
+                pushes.append(bb)
+    found = 0
+    for B, blk in enumerate(f.blocks):
+        t = blk["term"]
+        if blk["cleanup"] or t["k"] != "switch" or B in inloop or t["dty"] != "bool":
+            continue
+        # symbolic state over the straight-line run of blocks that ends in this test
+        chain = [B]
+        while True:
+            ps_ = [p for p in f.preds(chain[0]) if not f.blocks[p]["cleanup"]]
+            if len(ps_) != 1 or f.blocks[ps_[0]]["term"]["k"] not in ("goto", "call", "assert", "drop") or ps_[0] in chain or len(chain) > 12:
+                break
+            chain.insert(0, ps_[0])
+        st = {}
+        for cbk in chain:
+            for s_ in f.blocks[cbk]["stmts"]:
+                rec.stmt(s_, st)
+            tc = f.blocks[cbk]["term"]
+            if cbk != B and tc["k"] == "call":
+                fk = tc["f"].get("fn")
+                rec.call(cbk, tc, ((fk.get("resolved") or fk["key"]) if fk else ""), st)
+        v = e8.operand_value(f, t["discr"], st)
+        syms = e8.symbols(v, rec.leaf)
+        ints = [x for x in syms if x[0] == "in" and f.locals[x[1]]["ty"] in ("usize", "isize")]
+        if ("self", "col") not in syms or len(ints) != 1 or len(syms) != 2:
+            continue
+        m, other = cfg.switch_edge_blocks(f, B)
+        true_tg, false_tg = other, m.get(0)
+        push_edge = None
+        for tg, val in ((true_tg, 1), (false_tg, 0)):
+            if tg is not None and any(pb == tg or cfg.dominated_by_edge(f, pb, B, tg) for pb in pushes):
+                push_edge = val
+        if push_edge is None:
+            continue
+        found += 1
+        wrong = []
+        for i in range(0, 6):
+            for c in range(i + 1, i + 4):
+                try:
+                    r = e8.evaluate(v, {("self", "col"): c, ints[0]: i}, rec.interp)
+                except Unknown as ex:
+                    wrong.append("indentation %d, column %d: %s" % (i, c, ex))
+                    continue
+                if int(bool(r)) != push_edge:
+                    wrong.append("indentation %d, column %d" % (i, c))
+        rep.check(not wrong, rule, "scan_block_scalar", "a last content line that runs up to the end of input (no line break after it) does not get its implied final "
+                  "break for: %s" % "; ".join(wrong[:4]), site=site(f, t["sp"]), detail={"condition": str(v)[:300]})
+    return found
